@@ -285,6 +285,21 @@ fn run(rp: &Rp) -> i32 {
             report("documented recipe vs built-in", &got, &want, got != want)
         }
         "sim" => replay_sim(rp),
+        "ac_ismatch" => {
+            let (s, e) = (rp.usize("s"), rp.usize("e"));
+            let ac = rp.ac();
+            let im = ac.is_match(input(rp, &hay, s, e));
+            let f = tup(ac.find(input(rp, &hay, s, e)));
+            let ex = oracle::exists(&pats, &hay, s, e, an, ci);
+            let want = oracle::find(&pats, &hay, s, e, mk, an, ci);
+            report("AhoCorasick::is_match / find", &(im, f), &(ex, want), im != ex || f != want)
+        }
+        "opp_case" => {
+            let b = rp.usize("b") as u8;
+            let got = aho_corasick::verif::prefilter::opposite_case(b);
+            let want = if b.is_ascii_uppercase() { b + 32 } else if b.is_ascii_lowercase() { b - 32 } else { b };
+            report("opposite_ascii_case", &got, &want, got != want)
+        }
         t => {
             eprintln!("no native replay for template {}", t);
             2
